@@ -5,11 +5,17 @@ META = dict(COMMON_META)
 META.update({
     "id": "C03",
     "design_ref": "§5 C03",
-    "technique": "Coq proof (protocol invariant: flag false and no notice pending => saturated; capacity => flagged or exactly one notice queued) "
+    "technique": "Coq proof (protocol invariant: flag false and no notice pending => saturated; capacity => flagged or exactly one notice queued; "
+                 "coverage invariant BInv carried relationally through every accept-thread function for ALL scripts, Proofs/SrvStrand.v) "
                  "+ extracted model vs the real accept loop at quiescent states and after a settling epilogue",
     "level_text": "Theorem C03_no_lost_wakeup: in every state reachable by a fault-free script (all limits >= 1 including 1, all schedules incl. finishing "
                   "inside the send/inc gap), a worker flagged unavailable whose notice queue entry has been processed has exactly L connections in progress, "
                   "a worker with spare capacity is flagged or has exactly one WorkerAvailable notice queued, and a flagged worker has spare capacity. "
+                  "C03_no_strand_all (EVERY script, worker deaths/replacements and yield-point schedules included, only a spurious WouldBlock excluded): "
+                  "the loop has not failed, a non-empty waker queue has its waker edge pending, and whenever the loop runs unpaused with some worker flagged, "
+                  "every listener with a non-empty backlog is registered with an unreported readiness edge or in back-off with the poll timeout armed. "
+                  "C03_release_drains (from ANY reachable state): one handle_waker call over a queue holding a release notice ends with the queue drained and "
+                  "every flagged worker exhausted or every listener's backlog empty (back-off / injected errors excepted). "
                   "The correspondence run checks this predicate at every quiescent state of the real accept loop and, after a settling epilogue of turns, "
                   "that no connectable client is left undispatched while a live worker has capacity.",
     "level_note": "Partial: the step from 'a notice is queued and the mio waker fired' to 'the accept thread runs handle_waker' is the blocking poll of "
